@@ -282,6 +282,8 @@ pub struct BOpts {
     pub block: usize,
     pub cap: u64,
     pub exclude: Vec<String>,
+    /// Whether owners are recorded (the library's `BackupOptions.owner`).
+    pub owner: bool,
 }
 
 impl BOpts {
@@ -291,6 +293,7 @@ impl BOpts {
             block,
             cap,
             exclude: vec![],
+            owner: true,
         }
     }
     pub fn defaults() -> BOpts {
@@ -301,7 +304,7 @@ impl BOpts {
     }
     pub fn describe(&self) -> String {
         format!(
-            "hunk={} block={} cap={}{}",
+            "hunk={} block={} cap={}{}{}",
             self.hunk,
             self.block,
             self.cap,
@@ -309,11 +312,12 @@ impl BOpts {
                 String::new()
             } else {
                 format!(" exclude={:?}", self.exclude)
-            }
+            },
+            if self.owner { "" } else { " owners-not-recorded" }
         )
     }
     pub fn to_json(&self) -> serde_json::Value {
-        serde_json::json!({"hunk": self.hunk, "block": self.block, "cap": self.cap, "exclude": self.exclude})
+        serde_json::json!({"hunk": self.hunk, "block": self.block, "cap": self.cap, "exclude": self.exclude, "owner": self.owner})
     }
     pub fn from_json(v: &serde_json::Value) -> BOpts {
         BOpts {
@@ -324,7 +328,12 @@ impl BOpts {
                 .as_array()
                 .map(|a| a.iter().map(|s| s.as_str().unwrap().to_string()).collect())
                 .unwrap_or_default(),
+            owner: v["owner"].as_bool().unwrap_or(true),
         }
+    }
+    pub fn without_owner(mut self) -> BOpts {
+        self.owner = false;
+        self
     }
 }
 
@@ -393,7 +402,7 @@ pub fn do_backup(
             max_entries_per_hunk: opts.hunk,
             max_block_size: opts.block,
             small_file_cap: opts.cap,
-            owner: true,
+            owner: opts.owner,
             change_callback: Some(Box::new(move |ec| {
                 changes2
                     .lock()
